@@ -26,6 +26,8 @@ def main(argv=None) -> int:
     ap.add_argument("--replay", default=None)
     args = ap.parse_args(argv)
     tier = args.tier if args.tier in ("quick", "thorough") else "quick"
+    from vlib import depth
+    depth.set_tier(tier)
     from vlib import props
 
     fn = props.CHECKS.get(args.prop)
